@@ -184,6 +184,9 @@ def robustness_grid(da, rng: random.Random, tier_: str, out: Outcome) -> list[di
         'mps-manifest': '/mps/live/testmps/hand_made.mpd', 'mps-manifest-vod': '/mps/vod/testmps/hand_made.mpd',
         'media-num': '/dash/live/bbb/bbb_v7/{live_n}.m4v', 'media-time': '/dash/vod/bbb/bbb_a1/time/352256.m4a',
         'media-vod': '/dash/vod/bbb/bbb_v7/3.m4v', 'media-enc': '/dash/vod/bbb/bbb_v7_enc/3.m4v',
+        # just outside the stored media: one and two past the last segment, number zero, the $Time$ past the end
+        'media-vod-past1': '/dash/vod/bbb/bbb_v7/11.m4v', 'media-vod-past2': '/dash/vod/bbb/bbb_v7/12.m4v', 'media-vod-zero': '/dash/vod/bbb/bbb_v7/0.m4v',
+        'media-vod-time-past': '/dash/vod/bbb/bbb_a1/time/1763328.m4a', 'mps-media-past': '/mps/vod/testmps/1/bbb_v7/9.m4v',
         'init': '/dash/live/bbb/bbb_v7/init.m4v', 'init-enc': '/dash/vod/bbb/bbb_a1_enc/init.m4a',
         'patch': '/patch/bbb/hand_made.mpd/{publish}', 'player': '/play/live/bbb/hand_made.mpd/index.html',
         'clearkey': '/clearkey', 'time': '/time/iso', 'time-ntp': '/time/http-ntp', 'time-xsd': '/time/xsd', 'time-head': '/time/head',
@@ -539,7 +542,7 @@ def main(tier_: str) -> int:
             'exhaustive': False, 'model_drift': drift, 'injection_requests': ninj, 'probes': len(probes),
             'status_histogram': {str(k): sum(1 for x in probes if x['status'] == k) for k in sorted({x['status'] for x in probes})},
             'samples': [lines[1], probes[len(probes) // 2], probes[-1]],
-            'bounds': f'tier {tier_}; injection: 4 usages x 8 specifications x failure count absent/0/1/2, two clients; grid: 26 route/stream '
+            'bounds': f'tier {tier_}; injection: 4 usages x 8 specifications x failure count absent/0/1/2, two clients; grid: 31 route/stream '
                       f'classes x {out.coverage.get("registered_options")} option names x {len(VALUE_CLASSES)} value classes (pairwise-reduced in quick); '
                       'MP4: truncations at box boundaries +-1, size field edits, bit flips, size-0 last box; size edits of every nested box and dense truncations of 4 files through the parser (lazy + eager, every box touched)',
         })
